@@ -863,7 +863,10 @@ class tensor:
                 classidx[:, thisgrp] = np.sort(idx[:, thisgrp], axis=1)
 
                 # Compare each element to its class exemplar
-                if np.any(self.data.ravel() != self.data[tuple(classidx.transpose())]):
+                if np.any(
+                    self.data.ravel(order=self.order)
+                    != self.data[tuple(classidx.transpose())]
+                ):
                     return False
 
             # We survived all the tests!
@@ -1463,11 +1466,13 @@ class tensor:
                 linclassidx = tt_sub2ind(self.shape, classidx)
 
                 # Compare each element to its class exemplar
-                if np.all(data.ravel() == data[tuple(classidx.transpose())]):
+                if np.all(
+                    data.ravel(order=self.order) == data[tuple(classidx.transpose())]
+                ):
                     continue
 
                 # Take average over all elements in the same class
-                classSum = accumarray(linclassidx, data.ravel())
+                classSum = accumarray(linclassidx, data.ravel(order=self.order))
                 classNum = accumarray(linclassidx, 1)
                 # We ignore this division error state because if we don't have an entry
                 # in linclassidx we won't reference the inf or nan in the slice below
